@@ -735,7 +735,7 @@ func genUnfit(t *rapid.T) UnfitCase {
 	var body []string
 	cpdefExtra := ""
 	nData := 0
-	kinds := []string{"imm-wide:rset", "imm-wide:mov", "jump-beyond:j", "jump-beyond:jz", "reg-huge", "port-beyond:in", "port-beyond:out", "romsize-small", "romsize-small:data", "ram-beyond", "romaddr-beyond"}
+	kinds := []string{"imm-wide:rset", "imm-wide:mov", "jump-beyond:j", "jump-beyond:jz", "reg-huge", "port-beyond:in", "port-beyond:out", "romsize-small", "romsize-small:data", "romsize-small:hy", "ram-beyond", "romaddr-beyond"}
 	c.Kind = rapid.SampledFrom(kinds).Draw(t, "kind")
 	var bad string
 	switch c.Kind {
@@ -765,6 +765,14 @@ func genUnfit(t *rapid.T) UnfitCase {
 			o = 2
 		}
 		cpdefExtra = fmt.Sprintf(", romsize:%d", rapid.IntRange(1, o-1).Draw(t, "romsize"))
+		bad = "inc r1"
+	case "romsize-small:hy":
+		// hybrid processor: the user's ROM is smaller than the ROM program although the RAM is not
+		o := bitsFor(n)
+		if o < 2 {
+			o = 2
+		}
+		cpdefExtra = fmt.Sprintf(", execmode:hy, romsize:%d, ramsize:%d", rapid.IntRange(1, o-1).Draw(t, "romsize"), o+rapid.IntRange(0, 2).Draw(t, "ramextra"))
 		bad = "inc r1"
 	case "romsize-small:data":
 		// the user's ROM holds the code, but code + data need one or two cells more than it has
